@@ -56,6 +56,30 @@ def events(nodes, m, sub_single, sub_multi, reflexive=True):
                     yield combo
 
 
+def events2(nodes, reflexive=True):
+    """Quick event space: single items (<= 2 subscripts), pairs (<= 2 subscripts, <= 1 subscript), and triples made of
+    one item with <= 2 subscripts and two factual items on other variables."""
+    two = event_items(nodes, 2, reflexive)
+    one = event_items(nodes, 1, reflexive)
+    zero = event_items(nodes, 0, reflexive)
+    for it in two:
+        yield (it,)
+    seen = set()
+    for a in two:
+        for b in one:
+            if (a[0], a[1]) == (b[0], b[1]):
+                continue
+            k = frozenset((a, b))
+            if k in seen:
+                continue
+            seen.add(k)
+            yield (a, b)
+    for a in two:
+        for b, c in itt.combinations(zero, 2):
+            if len({a[0], b[0], c[0]}) == 3:
+                yield (a, b, c)
+
+
 def val(a, name, star):
     return a[name] if not star else 1 - a[name]
 
